@@ -33,6 +33,16 @@ ENTRIES = {
             "GLM fits assumed to solve their score equations (measured).",
             "Lean 4 proof (stratum regrouping, cancellation algebra, witness by norm_num) + translator + differential correspondence",
             "DESIGN.md §6 C02"),
+    'C03': ("Lean theorems on the model of TMLE.fit / crossfit.targeting_step (code's sign conventions, generic sigma/logit): "
+            "targeted prediction under the observed arm = the arm's counterfactual prediction; the fluctuation GLM's own score "
+            "equations imply both efficient-score equations (and any solver residual transfers exactly); plug-ins are the "
+            "stated functions of the means over all rows; range theorems for binary (sigma into (0,1)) and continuous "
+            "(generated unit map / back-map, round trip, clip distance) outcomes; instantiated at the reals with Mathlib's "
+            "exp/log. Differential check on the guarded probe's arrays (Float model vs Qstar arrays, estimates, SEs, CIs) and "
+            "direct evaluation of the score sums / ranges on the real arrays, incl. cross-fit per split.",
+            "The fluctuation GLM is assumed to solve its score equations (measured on a reference fit, 1e-7*n); floating "
+            "point is outside the theorems ('to numerical precision' = exact identity + measured residual).",
+            "Lean 4 proof + translator (unit maps) + probe-based differential correspondence", "DESIGN.md §6 C03"),
     'C07': ("Lean theorems on the definitions generated from zepid/calc/utils.py (textbook formulas, rejection iff a "
             "count is non-positive, swap/transpose laws) and on a hand model of the data-frame classes (cross-tab by "
             "masks, missing counters, one count-function call per level); generated code is re-translated every run and "
